@@ -38,8 +38,8 @@ Section ElectionInv.
   Lemma master_drop c (s : srv) : master (drop_sess R c s) = master s. Proof. reflexivity. Qed.
 
   Lemma do_params_el c x p (s : srv) :
-    cur (fst (do_params R c x p s)) = cur s /\ master (fst (do_params R c x p s)) = master s
-    /\ (forall r, o_resps (snd (do_params R c x p s)) <> [RElect r]).
+    cur (fst (do_params R sv_fixed c x p s)) = cur s /\ master (fst (do_params R sv_fixed c x p s)) = master s
+    /\ (forall r, o_resps (snd (do_params R sv_fixed c x p s)) <> [RElect r]).
   Proof.
     unfold do_params.
     repeat match goal with |- context [if ?b then _ else _] => destruct b end;
@@ -115,7 +115,7 @@ Section ElectionInv.
     - destruct (sget R c s) as [x|]; [|inversion Hst; subst; cbn; split; auto; destruct m; reflexivity].
       destruct m as [p|id|ops| |].
       + pose proof (do_params_el c x p s) as (Hc & Hm & Hn).
-        destruct (do_params R c x p s) as [s1 o1]. cbn [fst snd] in *.
+        destruct (do_params R sv_fixed c x p s) as [s1 o1]. cbn [fst snd] in *.
         assert (Hs' : cur s' = cur s /\ master s' = master s /\ o = o1).
         { destruct (o_end o1); inversion Hst; subst; cbn; auto. }
         destruct Hs' as (H1 & H2 & ->).
